@@ -21,6 +21,18 @@ CHECKS = {
     "C05": (True, "property-based testing (proptest): differential against an independent table/row-hash builder, all 4 hash builds",
             "Generated-input exploration over column counts, heights, friendly boundaries, query sets and 8 corruption kinds; verdict equality with an independent reference that recomputes semantic truth of each (possibly corrupted) claim.",
             TRUST, "DESIGN.md §5 C05"),
+    "C02": (True, "mutation-based property testing: complete per-position enumeration of single-value replacements and single-element deletions over the serde image of every accepted proof, oracle = not accepted",
+            "Fault-style exploration: every scalar position (1.6k-3.6k per proof) of accepted Stone proofs and the fixture is replaced once (quick) or with all six replacement kinds (thorough), every vector has elements deleted; any mutant that differs structurally and is still accepted is a violation. Positive control: the unmodified proof must be accepted.",
+            TRUST + " Base proofs come from the independent Stone loader (cross-checked against proof_hex).", "DESIGN.md §5 C02"),
+    "C03": (True, "exhaustive enumeration of (26 honest proofs x 7 layout parameters) per feature build against a predicted verdict; differential of returned hashes against address-based Pedersen chains; serde round-trip on honest and generated mutant proofs",
+            "Finite domain enumerated completely under 4 (quick) / all 8 (thorough) hash x Stone builds; proofs are read by a loader independent of proof_parser and validated byte-for-byte against proof_hex.",
+            TRUST, "DESIGN.md §5 C03"),
+    "C08": (True, "model-based property testing of operation histories (proptest vec(op)) against a sponge model + metamorphic dependence laws + differential against the Stone prover's logged challenges",
+            "History-quantified exploration: 20k (quick) generated interleavings of absorb/squeeze operations are run on the transcript and on the model with every output and state compared; one absorbed value is bumped and all later challenges must change while earlier ones must not; FRI commit-phase messages likewise; on every shipped proof of the build the derived interaction elements, OODS point, FRI points and query set must equal the prover's V->P log.",
+            TRUST, "DESIGN.md §5 C08"),
+    "C13": (True, "property-based testing (proptest): metamorphic (any single-field change, cell insertion/deletion/transposition changes the digest) + differential against an independent preimage model + prover-log ground truth; both Stone versions",
+            "Generated-input exploration over honest and generated public inputs (with and without the 340 dynamic parameters) and single edits of every field class.",
+            TRUST, "DESIGN.md §5 C13"),
     "C06": (True, "property-based testing (proptest): completeness against an independent coefficient-space FRI prover; algebraic fold identity; all 4 hash builds",
             "Generated-input exploration over FRI configurations (step lists, last-layer bound, blow-up, friendly boundary), PRF polynomials below the bound, transcript seeds and query-set shapes: the honest instance built by an independent prover must pass Config::validate, fri_commit (evaluation points and transcript state equal to the sponge model), compute_next_layer (equal to the folded polynomial) and fri_verify; fri_formula is compared with 2^k*sum b^j P_j(y) on arbitrary cosets.",
             TRUST, "DESIGN.md §5 C06"),
